@@ -17,7 +17,7 @@ CHECKS = {
             "oracle is the inverse (equality with the original, exact total, body bytes unchanged). Boundary-size constructions put "
             "the remaining length and every v5 property section (also the will's) at -2..+5 around 128 / 16,384 / 2,097,152, go beyond "
             "16 MiB and up to 268,435,455 (thorough), include multi-byte payloads flagged as UTF-8, and long lists: 255 .. 65,537 topics, "
-            "codes and user properties (counts around the widths a counter might have). Exploration is the right level: "
+            "codes and user properties (counts around the widths a counter might have); every Unicode scalar value is carried once in each kind of text field. Exploration is the right level: "
             "the space is unbounded and the oracle is exact, so a counterexample search with shrinking is what can be built.",
             "No counterexample among the generated cases; absence outside them is not established. " + TRUST,
             "DESIGN.md §7 C01"),
@@ -41,7 +41,7 @@ CHECKS = {
             "thorough tier adds libFuzzer campaigns with AddressSanitizer and a Miri run of a fixed generated suite. A metamorphic probe "
             "renders the caller-held poll state (and a clone) with {:?} after every partial body delivery, once with the heap chunk it "
             "will reuse pre-filled with 0xAA and once with 0x55: the two renderings must be identical (nothing observable may depend on "
-            "bytes the transport never delivered).",
+            "bytes the transport never delivered). Body-level decoders are called directly with declared lengths far beyond the buffer, and the deep-input sub-checks (declared lengths, state observation, header/body) run a third time against a build of the library without optimisation on a 2 MiB stack, so unbounded recursion or stack use shows as a caught fatal signal.",
             "Totality and termination are established for the explored inputs only (termination through call bounds). Out-of-bounds access and uninitialised reads are judged by ASan/Miri in the thorough tier only, on the inputs those runs execute. " + TRUST,
             "DESIGN.md §7 C03"),
     "C04": ("exploration",
@@ -51,7 +51,7 @@ CHECKS = {
             "re-synthesised header. The strict poll decoder must accept exactly when the reference decoder (MQTT grammar + pinned "
             "leniencies) accepts, and on acceptance the normalised field values, total and body bytes must agree. Every reject class "
             "of the reference decoder has to be reached or the run reports broken machinery. Every frame with a body of up to 2 bytes "
-            "and every short byte sequence as string content (UTF-8 well-formedness against std) are enumerated.",
+            "and every short byte sequence as string content (UTF-8 well-formedness against std) are enumerated; ill-formed UTF-8 is also placed at the front, end, middle and every power-of-two offset of payloads flagged as UTF-8 (on a character boundary).",
             "No disagreement among the generated frames. The reference decoder and the pinned grammar (DESIGN.md §5) are the trusted oracle. " + TRUST,
             "DESIGN.md §7 C04"),
     "C05": ("exploration",
@@ -62,7 +62,7 @@ CHECKS = {
             "Pending; longer generated streams (1-4 byte headers) get random schedules, and PUBLISH streams with 2-4 byte headers "
             "every split of their first 8 bytes. Further modes continue from a clone of the caller-held state, let the transport fill "
             "the ReadBuf by initialize+advance, and insert a transient transport failure (Interrupted / WouldBlock / TimedOut) before "
-            "every read, which the decoder must hand on and after which the caller polls again. Each run must equal the uninterrupted run, "
+            "every read, which the decoder must hand on and after which the caller polls again; and deliver the stream as successive slices, each ending in an end-of-stream report, continuing from the caller-held state. Each run must equal the uninterrupted run, "
             "return Pending only when the transport did, never request more than the frame still needs, and consume what it reports.",
             "Exhaustive for the listed streams up to 15 (quick) / 18 (thorough) bytes; random beyond. The frame end used by the capacity check comes from the harness' own header parse. " + TRUST,
             "DESIGN.md §7 C05"),
@@ -72,7 +72,7 @@ CHECKS = {
             "to the blocking, async and poll decoders of both families: blocking must equal async with EOF mapped to Ok(None) (also "
             "for bare headers) on every string; on strings starting with a complete frame a poll acceptance must be matched by both "
             "lenient decoders and a poll rejection other than InvalidRemainingLength must be returned identically by both. Bare fixed "
-            "headers are compared across all four ways to one (Header::decode, decode_async, new_with, new from parts). Every frame "
+            "headers are compared across all four ways to one (Header::decode, decode_async, new_with, new from parts); body-level decoders are compared with the packet-level result, and the async decoder is also run over a transport delivering k bytes per read. Every frame "
             "with a body of up to 2 bytes is enumerated.",
             "No disagreement among the generated strings. " + TRUST,
             "DESIGN.md §7 C06"),
@@ -82,7 +82,7 @@ CHECKS = {
             "every field boundary and sampled positions beyond) must be reported as incomplete by all three decoders, and the "
             "encoding followed by arbitrary bytes must decode to the same packet with exactly its own bytes consumed. The end of the "
             "stream is presented as an empty read, as Err(UnexpectedEof) from the transport (any error payload shape), and after the "
-            "prefix trickled in byte by byte.",
+            "prefix trickled in byte by byte, and by transports that report the end once and fail afterwards. The bare header of every prefix is classified too.",
             "No counterexample among the generated (packet, cut, suffix) cases. " + TRUST,
             "DESIGN.md §7 C07"),
     "C08": ("exploration",
@@ -91,7 +91,7 @@ CHECKS = {
             "with two independent ways of advancing, async on a shared reader and over a scripted chunked transport with Pending, "
             "poll with a fresh state per packet); the decoded sequence, per-packet byte counts and the EOF report at the clean "
             "boundary are compared with what was generated. The same is done for sequences of re-spelled frames (long ack / DISCONNECT / "
-            "AUTH forms with an explicit empty property section, reason-only forms, shuffled properties; var-ints minimal).",
+            "AUTH forms with an explicit empty property section, reason-only forms, shuffled properties; var-ints minimal), and through a header-first front-end (Header::decode, then the body-level decoder on exactly remaining_len bytes).",
             "No counterexample among the generated (sequence, delivery) cases; 4-byte-header packets only in the thorough tier. " + TRUST,
             "DESIGN.md §7 C08"),
     "C09": ("exploration",
@@ -101,7 +101,7 @@ CHECKS = {
             "compared byte for byte; the sinks are call-bounded so a spin is a deterministic failure. The boundary-size "
             "constructions of C01 (header-width boundaries, 2 MiB property sections, > 16 MiB payloads, long lists) go through every entry "
             "point too. Streaming body encoders additionally meet sinks with their own vectored writes and sinks that are interrupted "
-            "(ErrorKind::Interrupted) every other call.",
+            "(ErrorKind::Interrupted) every other call, and sinks whose flush stays Pending; histories also contain packets derived from an earlier one by a single field change, so a cached or stale length shows.",
             "No counterexample among the generated (packet, sink script) pairs. " + TRUST,
             "DESIGN.md §7 C09"),
     "C10": ("exploration",
@@ -126,7 +126,7 @@ CHECKS = {
             "text fields are re-validated with std's UTF-8 check, topic names and filters with the library's and the harness' "
             "predicates, shared-subscription accessors are exercised against the split of the text, pids, var-int fields and "
             "UTF-8-flagged payloads are checked. All ~70 field labels must be reached. Every 1-/2-byte sequence and about 90,000 "
-            "(thorough: 1.1 M) 3- and 4-byte sequences are placed inside text fields and whatever is accepted is walked.",
+            "(thorough: 1.1 M) 3- and 4-byte sequences are placed inside text fields and whatever is accepted is walked; the same walk runs on what the async decoder returns over a k-bytes-per-read transport.",
             "No counterexample among the generated accepted inputs. " + TRUST,
             "DESIGN.md §7 C12"),
     "C13": ("exploration",
@@ -137,7 +137,7 @@ CHECKS = {
             "CONNECT, v3 CONNECTs with up to five 65,535-byte fields) are included, and so are partly buffered CONNECTs: from the end "
             "of the level byte on, every shorter buffer must already be refused in the same way; and after a refusal by the poll "
             "front-end the caller-held state still holds the whole body, from which the continuation yields the native CONNECT. All 256 levels x about 150 protocol "
-            "names (every single-edit neighbour and padding of the legal ones) are checked against both families, all front-ends and Protocol::new.",
+            "names (every single-edit neighbour, prefix and padding of the legal ones) are checked against both families, all front-ends and Protocol::new.",
             "No counterexample among the generated CONNECTs; the grid is enumerated completely. " + TRUST,
             "DESIGN.md §7 C13"),
     "C14": ("fault_enumeration",
@@ -149,7 +149,7 @@ CHECKS = {
             "payloads and property sections) get faults at field boundaries and at positions spread over the whole encoding. The "
             "oracle is the injected kind itself, the prefix property of what the sink received, and a conversion table for the error types. "
             "One-shot failures (the transport fails once, consumes nothing and would continue; every kind including Interrupted and "
-            "WouldBlock) must be handed on by both decoders, after which the poll decoder, polled again, completes the packet.",
+            "WouldBlock) must be handed on by both decoders, after which the poll decoder, polled again, completes the packet; a sink whose flush fails after a write fault must not turn the failure into success.",
             "Positions are exhaustive for encodings up to 260 bytes and sampled (field boundaries + random) beyond; Interrupted / WouldBlock are only used for one-shot failures. " + TRUST,
             "DESIGN.md §7 C14"),
     "C15": ("exploration",
@@ -172,7 +172,7 @@ CHECKS = {
             "ordinary (ASCII and multi-byte) characters, structured and random strings around 65,535 bytes, are given to TopicFilter::is_invalid, the "
             "constructor and the v3/v5 SUBSCRIBE/UNSUBSCRIBE decoders; all must agree with a predicate written from the "
             "specification by splitting on '/'. Every Unicode scalar value is tried in seven positions and every ordered pair of "
-            "prefix shapes in front of all short tails. The stated bounded space is enumerated completely.",
+            "prefix shapes in front of all short tails; look-alikes of the reserved words ($SHARE, $Share, $share2, vendor-style $words) and nested reserved prefixes are classified like any other level. The deep-input part is repeated against the library built without optimisation. The stated bounded space is enumerated completely.",
             "Exhaustive only inside the bounded space (length <= 6 quick, <= 8 / 7 thorough); longer strings are sampled. " + TRUST,
             "DESIGN.md §7 C16"),
     "C17": ("exploration",
@@ -182,7 +182,7 @@ CHECKS = {
             "depend only on the text, including values built from separate allocations and by decoding a SUBSCRIBE; the same for "
             "filters built around every Unicode scalar value, behind every ordered pair of prefix shapes, of every depth 1..300 and deeper; "
             "and over histories: with 300 / 66 k / 1.1 M (thorough 4.2 M) distinct filters alive, filters rebuilt from their text compare, "
-            "order and hash like the ones held.",
+            "order and hash like the ones held; clone and clone_from results are indistinguishable from the original. The deep-input part is repeated against the library built without optimisation.",
             "Pairs/triples are neighbours and pseudo-random partners inside enumeration blocks, not all pairs. " + TRUST,
             "DESIGN.md §7 C17"),
     "C18": ("exploration",
@@ -191,14 +191,14 @@ CHECKS = {
             "prefixes, 0.9 M medium-length strings with a forbidden character at every position of runs of up to 70 characters, and "
             "structured and random strings around 65,535 bytes: TopicName::is_invalid, the constructor (read-back, is_shared, is_sys) and "
             "the PUBLISH / will / response-topic decoders of both families must agree with: <= 65,535 bytes and no '+', '#', U+0000. "
-            "Every Unicode scalar value is tried in five positions.",
+            "Every Unicode scalar value is tried in five positions; look-alikes of the reserved prefixes ($SYS2, $sys, $share without slash, vendor-style $words) must give is_shared / is_sys exactly by the literal prefix rule. The deep-input part is repeated against the library built without optimisation.",
             "Exhaustive only inside the bounded space (length <= 6 quick, <= 7 thorough). " + TRUST,
             "DESIGN.md §7 C18"),
     "C19": ("exploration",
             "exhaustive enumeration of all (identifier, amount) pairs against a cycle model",
             "All 65,535 x 65,536 pairs are evaluated in both tiers (about 2 s on 16 cores) against stepping around the cycle "
             "1..=65535 in i64 arithmetic: result never 0, add/sub exact, mutual inverses, in-place operators equal the pure ones, "
-            "construction fails exactly for 0. The finite domain is enumerated completely (evidence: exhaustive = true).",
+            "construction fails exactly for 0; amounts of literal type and chains of mixed += / -= steps (generated) are compared with the same model. The finite domain is enumerated completely (evidence: exhaustive = true).",
             "The cycle model is trusted; the check runs in a build with overflow checks so a wrapping bug also shows as a panic.",
             "DESIGN.md §7 C19"),
     "C20": ("exploration",
